@@ -16,7 +16,7 @@ from sim.loop import SimStop
 from sim.prop import Prop
 
 MODES = ("same-scope", "other-scope", "outside-scope", "other-task")
-ENDS = ("exhaust", "break-aclose", "break-drop", "never-started")
+ENDS = ("exhaust", "break-aclose", "break-drop", "never-started", "break-resume")
 
 
 class C11(Prop):
@@ -27,7 +27,8 @@ class C11(Prop):
     rule_text = (
         "one case = generator spec (0..4 items; probe/record/pause/nested sync scope/nested stream between items; normal "
         "end or raise) x creation in scope A x consumption mode {same scope, other scope with different state, outside "
-        "any scope, other task} x termination {exhaust, break+aclose, break+drop reference (finalizer), never started} "
+        "any scope, other task} x termination {exhaust, break+aclose, break+drop reference (finalizer), never started, break then a second loop "
+        "over the rest} x created directly in A or in a nested scope left before consumption "
         "+ schedule (pauses inside the generator, gc instant, cancel landing); distinct = event-log digest incl. program; "
         "non-trivial = consumed in a context different from the creation context, or abandoned, or a fault fired"
     )
@@ -47,7 +48,7 @@ class C11(Prop):
         T0, T1, T2 = fam["types"][0], fam["types"][1], fam["types"][2]
         M0, M1 = fam["metrics"]
         mode = MODES[s.draw(4, "mode")]
-        end = ENDS[s.weighted((4, 2, 2, 1), "end")]
+        end = ENDS[s.weighted((4, 2, 2, 1, 1), "end")]
         n_items = s.draw(5, "items")
         item_kinds = [s.weighted((4, 2, 1, 1, 1, 1), "item-kind") for _ in range(n_items)]
         steps = []
@@ -65,6 +66,8 @@ class C11(Prop):
         second = (mode in ("same-scope", "outside-scope") and end == "exhaust" and not cancel_consumer
                   and s.chance(1, 3, "second-stream"))
         second_first = bool(second and s.draw(2, "second-first"))
+        # the stream may be created one level deeper: inside a scope A2 nested in A that is left before the stream is consumed
+        depth = 1 + int(s.chance(1, 4, "created-in-nested-scope"))
         def item_value(i):
             # falsy and None items are legitimate elements of a stream
             from haiway import MISSING
@@ -72,7 +75,7 @@ class C11(Prop):
 
         sim.program = {"mode": mode, "end": end, "items": n_items, "item_kinds": item_kinds, "steps": steps, "gen_raises": gen_raises,
                        "cancel_consumer": cancel_consumer, "break_after": break_after, "second_stream": int(second),
-                       "second_consumed_first": int(second_first), "consumer_swallowed_a_cancel_before": int(pre_cancelled),
+                       "second_consumed_first": int(second_first), "created_in_nested_scope_left_before_consumption": depth - 1, "consumer_swallowed_a_cancel_before": int(pre_cancelled),
                        "source": ("function", "functools.partial", "callable instance")[source_kind]}
         if mode != "same-scope" or end in ("break-drop", "never-started") or gen_raises or cancel_consumer:
             sim.nontrivial = True
@@ -80,6 +83,9 @@ class C11(Prop):
         cap = capture()
         a_state, a_t1 = make_state(0, 1), make_state(1, 2)
         b_state, b_t2 = make_state(0, 3), make_state(2, 4)
+        a2_state = make_state(0, 5)
+        created_state = a2_state if depth == 2 else a_state
+        r2_extra = {"created": "nested-scope"} if depth == 2 and mode == "same-scope" else {}
         gen_exc = Injected("gen")
         rec_values = []
         nested_values = []
@@ -127,11 +133,11 @@ class C11(Prop):
 
         def gen_probe(where, extra=None):
             # R2: the generator observes the state that was current where the stream was created (+ its own frames)
-            want0 = extra if extra is not None else a_state
+            want0 = extra if extra is not None else created_state
             got = state_of(T0)
             if got[0] != "inst" or got[1] is not want0:
                 sim.report("R2-generator-context", f"generator ({where}) sees T0 = {got[1]!r} ({got[0]}), the stream was created where "
-                           f"T0 = {want0!r}; consumed {mode}", **feat(False))
+                           f"T0 = {want0!r}; consumed {mode}", **feat(False), **r2_extra)
             got1 = state_of(T1)
             if got1[0] != "inst" or got1[1] is not a_t1:
                 sim.report("R2-generator-context", f"generator ({where}) sees T1 = {got1[1]!r} ({got1[0]}), created with {a_t1!r}; "
@@ -205,15 +211,22 @@ class C11(Prop):
 
         def compare(before, where, rule):
             now = consumer_obs()
+            changed = []
             for key in ("T0", "T2", "log", "owner"):
                 b, n = before[key], now[key]
                 if b is None or n is None:
                     continue
                 same = (b[0] == n[0] and b[1] is n[1]) if key in ("T0", "T2") else b == n
                 if not same:
-                    sim.report(rule, f"consumer ({mode}) {where}: its {key} changed from {b!r} to {n!r}",
-                               **feat(rule.startswith("R4")))
-                    return
+                    changed.append(key)
+            if changed:
+                # which part of the consumer's context changed is part of the signature: state, metrics scope (log) and
+                # task group (owner) are separate ways to fail
+                what = "+".join("state" if k in ("T0", "T2") else {"log": "metrics", "owner": "taskgroup"}[k] for k in changed)
+                what = "+".join(dict.fromkeys(what.split("+")))
+                key = changed[0]
+                sim.report(rule, f"consumer ({mode}) {where}: its {'/'.join(changed)} changed; {key}: {before[key]!r} -> {now[key]!r}",
+                           what=what, **feat(rule.startswith("R4")))
 
         async def gen2():
             ctx.record(M1(items=(200,)), merge=lambda l, r: M1(items=(*l.items, *r.items)))
@@ -268,6 +281,14 @@ class C11(Prop):
                     k += 1
                     compare(before, f"between items (after item {k - 1})", "R3-consumer-context-between-items")
                     if break_after is not None and k > break_after:
+                        if end == "break-resume":
+                            # the first loop was left by `break`; a second loop over the same stream object takes the rest
+                            if not st.get("resumed"):
+                                st["resumed"] = True
+                                sim.stats["stream_resumed_by_second_loop"] += 1
+                                sim.event("resume")
+                                it = stream.__aiter__()
+                            continue
                         st["outcome"] = ("break", None)
                         break
                 if st["outcome"][0] == "break" and end == "break-aclose":
@@ -295,6 +316,14 @@ class C11(Prop):
             holder = {}
 
             async def in_a():
+                if depth == 2:
+                    async with ctx.scope("A2", a2_state):
+                        create()
+                else:
+                    create()
+                await consume_in_a()
+
+            def create():
                 if source_kind == 1:
                     import functools
                     holder["stream"] = ctx.stream(functools.partial(gen, "tag"))
@@ -307,6 +336,8 @@ class C11(Prop):
                     holder["stream"] = ctx.stream(gen, "tag")
                 if second:
                     holder["stream2"] = ctx.stream(gen2)
+
+            async def consume_in_a():
                 if mode == "same-scope":
                     if second and second_first:
                         await consume2(holder.pop("stream2"))
